@@ -6,14 +6,17 @@
 (*       the real OctTree built for an element set, dumped through the     *)
 (*       verif hook: cells = [lo,hi,el,ch] in pre-order, eb = element      *)
 (*       bounds (lattice integers)                                         *)
-(*  {"k":"closest","b":[{q,st,nan,d2,cp,ri,rp}]}   OctTree.ClosestPoint    *)
-(*  {"k":"contain","b":[{q,st,hit,res}]}           ElementsContainingPoint *)
-(*  {"k":"range",  "b":[{q,st,hit,res}]}           ElementsWithinRange     *)
-(*  {"k":"ray",    "b":[{q,st,hit,res,trav}]}      ElementsIntersectingRay *)
-(*                                   + TraverseIntersectingRay (passive)   *)
-(*  {"k":"near",   "b":[{q,st,nan,te,hitb,vis,ri,rt}]}  narrowing traversal*)
-(*  {"k":"scene","kind","n","rep","st"}     hittables + one BVH build      *)
-(*  {"k":"hit","b":[{q,nan,te,list,bvh,oct}]}  HitList / BVHNode / Tree.Hit*)
+(*  batch lines {"k","case","fail":[i..],"nan":[i..],"b":[entry..]}: entry *)
+(*  i answers query i of the case; fail = calls that panicked, nan = a     *)
+(*  non-finite / out-of-budget real among facts or answer                  *)
+(*   closest  {d2,cp,ri,rp}            OctTree.ClosestPoint                *)
+(*   contain  {hit,res}                ElementsContainingPoint             *)
+(*   range    {hit,res}                ElementsWithinRange                 *)
+(*   ray      {hit,res,trav}           ElementsIntersectingRay and the     *)
+(*                                     passive TraverseIntersectingRay     *)
+(*   near     {te,hitb,vis,ri,rt}      narrowing traversal (nearest hit)   *)
+(*   hit      {te,list,bvh,oct}        HitList / BVHNode / rendering.Tree  *)
+(*  {"k":"scene","kind","n","rep","st"}   hittables + one BVH build        *)
 (* d2, cp, te, hit, hitb are the exhaustive scan (element-level real       *)
 (* primitives applied to every element); ri/rp/res/trav/vis/rt/list/bvh/   *)
 (* oct are what the real index answered. TLC judges; rejected lines are    *)
@@ -30,7 +33,10 @@ Init == l = 1 /\ n = 0 /\ tree = "none"
 
 Line == Trace[l]
 B == Line.b
-Fails(P(_)) == {i \in DOMAIN B : ~P(B[i])}
+\* entries (by number) for which P does not hold
+Fails(P(_)) == {i \in DOMAIN B : ~P(i)}
+Ran(i) == i \notin Range(Line.fail)
+Finite(i) == i \notin Range(Line.nan)
 
 Report(f) ==
     LET bad == {p \in DOMAIN f : f[p] # {}}
@@ -60,24 +66,24 @@ Closest ==
     /\ Line.k = "closest"
     /\ Report([p \in {"C16.Closest", "Harness.NaN", "Harness.Shape"} |->
           CASE p = "C16.Closest" ->
-                 Fails(LAMBDA e : e.st = "OK" /\ (e.nan \/ ~FactsN(e.d2) \/ ClosestOK(e.d2, e.cp, e.ri, e.rp)))
-            [] p = "Harness.NaN" -> Fails(LAMBDA e : ~e.nan)
-            [] OTHER -> Fails(LAMBDA e : FactsN(e.d2) /\ FactsN(e.cp))])
+                 Fails(LAMBDA i : Ran(i) /\ (~Finite(i) \/ ~FactsN(B[i].d2) \/ ClosestOK(B[i].d2, B[i].cp, B[i].ri, B[i].rp)))
+            [] p = "Harness.NaN" -> Fails(Finite)
+            [] OTHER -> Fails(LAMBDA i : FactsN(B[i].d2) /\ FactsN(B[i].cp))])
     /\ UNCHANGED <<n, tree>> /\ l' = l + 1
 
 SetQuery(kind, pred) ==
     /\ Line.k = kind
     /\ Report([p \in {pred, "Harness.Shape"} |->
-          IF p = pred THEN Fails(LAMBDA e : e.st = "OK" /\ SetAgrees(e.res, e.hit))
-          ELSE Fails(LAMBDA e : Ids(e.hit))])
+          IF p = pred THEN Fails(LAMBDA i : Ran(i) /\ SetAgrees(B[i].res, B[i].hit))
+          ELSE Fails(LAMBDA i : Ids(B[i].hit))])
     /\ UNCHANGED <<n, tree>> /\ l' = l + 1
 
 Ray ==
     /\ Line.k = "ray"
     /\ Report([p \in {"C16.Ray", "C16.Traverse", "Harness.Shape"} |->
-          CASE p = "C16.Ray" -> Fails(LAMBDA e : e.st = "OK" /\ SetAgrees(e.res, e.hit))
-            [] p = "C16.Traverse" -> Fails(LAMBDA e : e.st = "OK" /\ SetAgrees(e.trav, e.hit))
-            [] OTHER -> Fails(LAMBDA e : Ids(e.hit))])
+          CASE p = "C16.Ray" -> Fails(LAMBDA i : Ran(i) /\ SetAgrees(B[i].res, B[i].hit))
+            [] p = "C16.Traverse" -> Fails(LAMBDA i : Ran(i) /\ SetAgrees(B[i].trav, B[i].hit))
+            [] OTHER -> Fails(LAMBDA i : Ids(B[i].hit))])
     /\ UNCHANGED <<n, tree>> /\ l' = l + 1
 
 \* narrowing traversal: right nearest hit, and only elements whose bounds the
@@ -86,10 +92,11 @@ Near ==
     /\ Line.k = "near"
     /\ Report([p \in {"C16.Nearest", "Harness.NaN", "Harness.Shape"} |->
           CASE p = "C16.Nearest" ->
-                 Fails(LAMBDA e : e.st = "OK" /\ (e.nan \/ ~FactsN(e.te) \/
-                        (NearestOK(e.te, e.ri, e.rt) /\ NoDup(e.vis) /\ Range(e.vis) \subseteq Range(e.hitb))))
-            [] p = "Harness.NaN" -> Fails(LAMBDA e : ~e.nan)
-            [] OTHER -> Fails(LAMBDA e : FactsN(e.te) /\ Ids(e.hitb))])
+                 Fails(LAMBDA i : Ran(i) /\ (~Finite(i) \/ ~FactsN(B[i].te) \/
+                        (/\ NearestOK(B[i].te, B[i].ri, B[i].rt)
+                         /\ NoDup(B[i].vis) /\ Range(B[i].vis) \subseteq Range(B[i].hitb))))
+            [] p = "Harness.NaN" -> Fails(Finite)
+            [] OTHER -> Fails(LAMBDA i : FactsN(B[i].te) /\ Ids(B[i].hitb))])
     /\ UNCHANGED <<n, tree>> /\ l' = l + 1
 
 Scene ==
@@ -98,17 +105,22 @@ Scene ==
     /\ n' = Line.n /\ tree' = Line.kind
     /\ l' = l + 1
 
-Ran(r) == r.st = "OK"
+Returned(r) == r.st = "OK"
 Hit ==
     /\ Line.k = "hit"
     /\ Report([p \in {"C16.ListHit", "C16.BvhHit", "C16.OctHit", "Harness.NaN", "Harness.Shape"} |->
-          CASE p = "C16.ListHit" -> Fails(LAMBDA e : e.nan \/ ~FactsN(e.te) \/ (Ran(e.list) /\ HitOK(e.te, e.list)))
-            [] p = "C16.BvhHit" -> Fails(LAMBDA e : e.nan \/ ~FactsN(e.te) \/
-                                          (Ran(e.bvh) /\ HitOK(e.te, e.bvh) /\ (Ran(e.list) => SameHit(e.bvh, e.list))))
-            [] p = "C16.OctHit" -> Fails(LAMBDA e : e.nan \/ ~FactsN(e.te) \/
-                                          (Ran(e.oct) /\ HitOK(e.te, e.oct) /\ (Ran(e.list) => SameHit(e.oct, e.list))))
-            [] p = "Harness.NaN" -> Fails(LAMBDA e : ~e.nan)
-            [] OTHER -> Fails(LAMBDA e : FactsN(e.te))])
+          CASE p = "C16.ListHit" ->
+                 Fails(LAMBDA i : ~Finite(i) \/ ~FactsN(B[i].te) \/ (Returned(B[i].list) /\ HitOK(B[i].te, B[i].list)))
+            [] p = "C16.BvhHit" ->
+                 Fails(LAMBDA i : ~Finite(i) \/ ~FactsN(B[i].te) \/
+                        (/\ Returned(B[i].bvh) /\ HitOK(B[i].te, B[i].bvh)
+                         /\ Returned(B[i].list) => SameHit(B[i].bvh, B[i].list)))
+            [] p = "C16.OctHit" ->
+                 Fails(LAMBDA i : ~Finite(i) \/ ~FactsN(B[i].te) \/
+                        (/\ Returned(B[i].oct) /\ HitOK(B[i].te, B[i].oct)
+                         /\ Returned(B[i].list) => SameHit(B[i].oct, B[i].list)))
+            [] p = "Harness.NaN" -> Fails(Finite)
+            [] OTHER -> Fails(LAMBDA i : FactsN(B[i].te))])
     /\ UNCHANGED <<n, tree>> /\ l' = l + 1
 
 Next == l <= Len(Trace) /\ (Tree \/ Closest \/ SetQuery("contain", "C16.Contain") \/ SetQuery("range", "C16.Range")
